@@ -1,6 +1,12 @@
 """C18 monitors: workload (payloads + task function), a deterministic executor whose completion
 schedule is chosen by a scheduler, and the offline history checker.
 
+Workload: the exception a payload's function raises is one of EXC_KIND_NAMES (every builtin Exception class outside
+the RuntimeError family, OSError built from an errno, some standard-library and user-defined classes; each verified to
+survive a pickle round trip).  A payload list may name a payload several times and may hold different payloads that
+compare / hash equal (GroupPayload & co., make_payloads); the checker identifies a result by the id it reads from
+result.payload.payload and wants as many results for an id as the list has positions for it.
+
 Nothing here reimplements tatsu.parproc: the real `parproc()` generator, the real `taskproc` and
 the real `concurrent.futures.as_completed` run; only the *executor* (who runs a task and when its
 future completes) and the *blocking point* (`threading.Event.wait` inside concurrent.futures._base)
@@ -12,6 +18,7 @@ import concurrent.futures
 import concurrent.futures._base as cf_base
 import concurrent.futures.process as cf_process
 import contextlib
+import dataclasses
 import multiprocessing
 import os
 import pickle
@@ -32,20 +39,140 @@ class VtLookup(KeyError):
     pass
 
 
-# exception kinds the loop can be asked to capture.  RuntimeError and its subclasses are excluded:
+class VtConnLost(ConnectionError):
+    """user-defined: the peer hung up"""
+
+
+class VtTruncated(EOFError):
+    """user-defined: the document ends early"""
+
+
+class VtIOValue(OSError, ValueError):
+    """user-defined, two builtin bases (the shape of io.UnsupportedOperation)"""
+
+
+class VtMulti(VtTaskError, LookupError):
+    """user-defined, a user-defined and a builtin base"""
+
+
+class VtWithState(Exception):
+    """user-defined with its own constructor and an attribute next to .args"""
+
+    def __init__(self, msg, uid):
+        super().__init__(msg, uid)
+        self.uid = uid
+
+
+class VtNeverRaised(Exception):
+    """declared by raises() of the 'undeclared' poison payloads; no task function raises it"""
+
+
+def _excluded(cls):
+    """outside the statement: taskproc always re-raises RuntimeError and its subclasses (RecursionError,
+    NotImplementedError, ...); KeyboardInterrupt / SystemExit / GeneratorExit are not Exceptions"""
+    return not issubclass(cls, Exception) or issubclass(cls, RuntimeError)
+
+
+def _special_args(cls, text, uid):
+    """constructor arguments of the builtin classes that do not take (text, uid)"""
+    if issubclass(cls, UnicodeDecodeError):
+        return ('utf-8', b'\xffboom', uid % 3, 4, f'{text}-{uid}')
+    if issubclass(cls, UnicodeEncodeError):
+        return ('ascii', 'b\xf6\xf6m', uid % 3, 4, f'{text}-{uid}')
+    if issubclass(cls, UnicodeTranslateError):
+        return ('b\xf6\xf6m', uid % 3, 4, f'{text}-{uid}')
+    if issubclass(cls, SyntaxError):
+        return (text, (f'p{uid}.ebnf', uid, 3, 'start = rule $ ;'))
+    if issubclass(cls, BaseExceptionGroup):
+        return (text, [ValueError(uid), KeyError(text)])
+    return None
+
+
+def _build_kinds():
+    """-> ({kind: constructor}, {kind: args builder}, [(kind, why skipped)])
+
+    every builtin exception class the statement covers (all subclasses of Exception that are not RuntimeErrors:
+    the OSError family with its errno subclasses, EOFError, the LookupError / ArithmeticError / ValueError-UnicodeError /
+    ImportError / NameError / SyntaxError families, AttributeError, AssertionError, BufferError, MemoryError,
+    ReferenceError, SystemError, StopIteration, StopAsyncIteration, ExceptionGroup, the Warning classes), OSError
+    built the way the OS layer builds it (errno first: the constructor picks the subclass), some standard-library
+    classes and user-defined subclasses incl. multiple inheritance.  A class is used only if an instance built with
+    the workload's arguments survives a pickle round trip with its type and args (what a process pool needs)."""
+    import builtins
+    import errno
+    import io
+    import json as json_mod
+    import subprocess as subprocess_mod
+    ctor, argsof = {}, {}
+    legacy = {ValueError: 'value', KeyError: 'key', TypeError: 'type', OSError: 'os', ZeroDivisionError: 'zero',
+              AssertionError: 'assert', StopIteration: 'stopiter'}
+    for name in sorted(vars(builtins)):
+        c = getattr(builtins, name)
+        if not isinstance(c, type) or not issubclass(c, BaseException) or c.__name__ != name or _excluded(c):
+            continue                                         # (IOError / EnvironmentError are aliases of OSError)
+        kind = legacy.get(c, name)
+        ctor[kind] = c
+        argsof[kind] = (lambda text, uid, c=c: _special_args(c, text, uid) or (text, uid))
+    for code in ('ENOENT', 'EPIPE', 'ECONNRESET', 'ECONNREFUSED', 'ETIMEDOUT', 'EACCES', 'EINTR', 'EEXIST', 'ENOSPC'):
+        kind = 'os-' + code
+        ctor[kind] = OSError                                 # OSError(errno, text) -> FileNotFoundError, BrokenPipeError, ...
+        argsof[kind] = (lambda text, uid, n=getattr(errno, code): (n, f'{text}-{uid}'))
+    for kind, c in (('custom', VtTaskError), ('lookup', VtLookup), ('VtConnLost', VtConnLost), ('VtTruncated', VtTruncated),
+                    ('VtIOValue', VtIOValue), ('VtMulti', VtMulti), ('VtWithState', VtWithState),
+                    ('io.UnsupportedOperation', io.UnsupportedOperation),
+                    ('pickle.UnpicklingError', pickle.UnpicklingError)):
+        ctor[kind] = c
+        argsof[kind] = (lambda text, uid: (text, uid))
+    ctor['json.JSONDecodeError'] = json_mod.JSONDecodeError
+    argsof['json.JSONDecodeError'] = (lambda text, uid: (f'{text}-{uid}', '{"a": ]', 6))
+    ctor['subprocess.CalledProcessError'] = subprocess_mod.CalledProcessError
+    argsof['subprocess.CalledProcessError'] = (lambda text, uid: (uid % 120 + 1, [text, str(uid)]))
+    skipped = []
+    for kind in sorted(ctor):
+        try:
+            e = ctor[kind](*argsof[kind]('boom-' + kind, 100))
+            e2 = pickle.loads(pickle.dumps(e))
+            ok = type(e2) is type(e) and normal(e2.args) == normal(e.args) and not _excluded(type(e))
+            why = 'does not survive a pickle round trip' if not ok else ''
+        except Exception as x:                               # cannot be built with simple arguments
+            ok, why = False, f'{type(x).__name__}: {x}'[:120]
+        if not ok:
+            skipped.append((kind, why))
+            del ctor[kind], argsof[kind]
+    return ctor, argsof, skipped
+
+
+def normal(x, depth=0):
+    """hashable, JSON-able normal form of an outcome / exception args"""
+    if isinstance(x, dict):
+        return ['<dict>'] + [[normal(k, depth + 1), normal(v, depth + 1)] for k, v in sorted(x.items(), key=repr)]
+    if isinstance(x, (list, tuple)):
+        return [normal(v, depth + 1) for v in x]
+    if x is None or isinstance(x, (bool, int, float, str)):
+        return x
+    return repr(x)[:200]
+
+
+# exception kinds the loop can be asked to capture: kind -> constructor.  RuntimeError and its subclasses are excluded:
 # taskproc always re-raises them (outside the statement).
-EXC_KINDS = {
-    'value': ValueError,
-    'key': KeyError,
-    'type': TypeError,
-    'os': OSError,
-    'zero': ZeroDivisionError,
-    'custom': VtTaskError,
-    'lookup': VtLookup,
-    'assert': AssertionError,
-    'stopiter': StopIteration,
-}
-EXC_KIND_NAMES = sorted(EXC_KINDS)
+EXC_CTOR, EXC_ARGS, EXC_KINDS_SKIPPED = _build_kinds()
+EXC_KIND_NAMES = sorted(EXC_CTOR)
+
+
+def make_exc(kind, uid):
+    """the exception the task function raises for a payload of this kind"""
+    return EXC_CTOR[kind](*EXC_ARGS[kind]('boom-' + kind, uid))
+
+
+# kind -> the class of the exception actually raised (OSError(errno, ...) builds a subclass)
+EXC_KINDS = {k: type(make_exc(k, 100)) for k in EXC_KIND_NAMES}
+EXC_CLASS_NAMES = sorted({c.__name__ for c in EXC_KINDS.values()})
+
+
+def is_type_error(kind):
+    """a VisualPayload whose function raises TypeError is called again with the path (documented HACK): not generated"""
+    return kind is not None and issubclass(EXC_KINDS[kind], TypeError)
+
 
 # raises() declarations under which an exception of kind k is one the loop is asked to capture
 RAISES_DECL = {
@@ -116,9 +243,93 @@ class GuardedPayload(PlainPayload):
         return f'GuardedPayload({self.uid})'
 
 
+# payloads that compare equal / hash equal although they are different tasks (a document identified by its content, not
+# by where it lives); the id stays readable in .payload for the checker
+class GroupPayload(PlainPayload):
+    """== and hash ignore the id: the payloads of one group compare equal"""
+    __slots__ = ()
+
+    def __eq__(self, other):
+        return isinstance(other, GroupPayload) and self.spec.get('group') == other.spec.get('group')
+
+    def __ne__(self, other):
+        return not self.__eq__(other)
+
+    def __hash__(self):
+        return hash(('vt-group', self.spec.get('group')))
+
+    def __repr__(self):
+        return f'{type(self).__name__}({self.uid}, group={self.spec.get("group")!r})'
+
+
+class GroupNoHashPayload(GroupPayload):
+    """equal within the group and not hashable"""
+    __slots__ = ()
+    __hash__ = None
+
+
+class ConstHashPayload(PlainPayload):
+    """all hash alike, none equal to another"""
+    __slots__ = ()
+
+    def __hash__(self):
+        return 7
+
+
+class ListPayload(list):
+    """a payload that IS a list (its content: the group): equal by content, not hashable"""
+
+    def __init__(self, uid, spec):
+        super().__init__([spec.get('group')])
+        self.uid = uid
+        self.spec = spec
+
+    @property
+    def path(self):
+        return Path(f'/vt-c18/l{self.uid}.txt')
+
+    @property
+    def payload(self):
+        return self.spec
+
+    def raises(self):
+        return _declared(self.spec)
+
+    def __reduce__(self):
+        return (ListPayload, (self.uid, self.spec))
+
+
+@dataclasses.dataclass
+class DataPayload:
+    """a dataclass whose equality is its content field: path and payload do not take part (eq without hash: unhashable)"""
+    path: Path = dataclasses.field(compare=False)
+    payload: dict = dataclasses.field(compare=False)
+    group: str = ''
+
+    def raises(self):
+        return _declared(self.payload)
+
+
+@dataclasses.dataclass(frozen=True)
+class FrozenDataPayload:
+    """the same, frozen: hashable by its content field"""
+    path: Path = dataclasses.field(compare=False)
+    payload: dict = dataclasses.field(compare=False)
+    group: str = ''
+
+    def raises(self):
+        return _declared(self.payload)
+
+
+EQ_CLASSES = {'group': GroupPayload, 'groupnohash': GroupNoHashPayload, 'consthash': ConstHashPayload, 'listy': ListPayload}
+EQ_DATA_CLASSES = {'data': DataPayload, 'datafrozen': FrozenDataPayload}
+EQ_CLASS_NAMES = ('group', 'data', 'groupnohash', 'listy', 'datafrozen', 'consthash')
+LIST_KEYS = ('same_as', 'twin_of')          # where a spec sits in its list; not part of the payload
+
+
 def _declared(spec):
     if spec.get('poison') == 'undeclared':   # declares something else: the loop is NOT asked to capture this one
-        return (UnicodeError,)
+        return (VtNeverRaised,)
     if spec.get('exc') is None:
         decl = spec.get('raises', 'none')
         return () if decl == 'none' else RAISES_DECL[decl](ValueError)
@@ -129,10 +340,16 @@ def make_payload(spec):
     """spec: {'uid', 'exc': kind|None, 'raises': decl, 'cls': 'plain'|'proto'|'visual', 'sleep': ms}"""
     kind = spec.get('cls', 'plain')
     poison = spec.get('poison') or ''
+    if any(k in spec for k in LIST_KEYS):
+        spec = {k: v for k, v in spec.items() if k not in LIST_KEYS}
     if poison.startswith('payload-'):
         return GuardedPayload(spec['uid'], spec, _guard(poison, spec['uid']))
     if kind == 'plain':
         return PlainPayload(spec['uid'], spec)
+    if kind in EQ_CLASSES:
+        return EQ_CLASSES[kind](spec['uid'], spec)
+    if kind in EQ_DATA_CLASSES:
+        return EQ_DATA_CLASSES[kind](Path(f'/vt-c18/d{spec["uid"]}.txt'), spec, spec.get('group') or '')
     from tatsu.parproc.payload import Payload, VisualPayload
     if kind == 'visual':
         # the library's own payload class; raises() is the protocol default ()
@@ -162,6 +379,48 @@ def _rebuild_proto(uid, spec):
     return make_payload(dict(spec, uid=uid, cls='proto'))
 
 
+def make_payloads(specs):
+    """the payload list of a run.  A spec with 'same_as': j puts the very object of position j into the list again (a
+    document listed twice); one with 'twin_of': j is a separately built payload from the same spec (equal where the
+    class compares by value: VisualPayload, the group classes).  Both have the uid of position j: the checker counts
+    results per uid, k list positions => exactly k results."""
+    out = []
+    for s in specs:
+        j = s.get('same_as')
+        out.append(out[j] if j is not None else make_payload(s))
+    return out
+
+
+def equal_facts(specs):
+    """what the payload list of these specs really looks like (built and compared, not assumed) -> dict of counts"""
+    ps = make_payloads(specs)
+    same = equal = hash_equal = 0
+    for i in range(len(ps)):
+        for j in range(i + 1, len(ps)):
+            if ps[i] is ps[j]:
+                same += 1
+                continue
+            try:
+                if ps[i] == ps[j]:
+                    equal += 1
+                    continue
+            except Exception:
+                continue
+            try:
+                if hash(ps[i]) == hash(ps[j]):
+                    hash_equal += 1
+            except TypeError:
+                pass
+    unhashable = 0
+    for p in ps:
+        try:
+            hash(p)
+        except TypeError:
+            unhashable += 1
+    return {'same_object_pairs': same, 'equal_pairs': equal, 'hash_equal_unequal_pairs': hash_equal,
+            'unhashable': unhashable, 'repeated_uids': len(specs) - len({s['uid'] for s in specs})}
+
+
 def uid_of(payload):
     try:
         return payload.payload['uid']
@@ -175,8 +434,8 @@ def expected_value(spec, args, kwargs):
 
 
 def expected_exc(spec):
-    cls = EXC_KINDS[spec['exc']]
-    return cls.__name__, ('boom-' + spec['exc'], spec['uid'])   # text first: OSError(int, str) would pick an errno subclass
+    e = make_exc(spec['exc'], spec['uid'])
+    return type(e).__name__, e.args
 
 
 def work(payload, *args, **kwargs):
@@ -190,8 +449,7 @@ def work(payload, *args, **kwargs):
     if ms and scale:
         time.sleep(ms * scale / 1000.0)
     if spec.get('exc') is not None:
-        name, a = expected_exc(spec)
-        raise EXC_KINDS[spec['exc']](*a)
+        raise make_exc(spec['exc'], spec['uid'])
     out = {'v': expected_value(spec, args, kwargs),
            'meta': {'pid': os.getpid(), 't0': t0, 't1': time.monotonic()}}
     if (spec.get('poison') or '').startswith('outcome-'):
@@ -202,17 +460,6 @@ def work(payload, *args, **kwargs):
 def pick(outcome):
     """a non-default `pickable` transformation (module level: picklable)"""
     return ['picked', outcome]
-
-
-def normal(x, depth=0):
-    """hashable, JSON-able normal form of an outcome / exception args"""
-    if isinstance(x, dict):
-        return ['<dict>'] + [[normal(k, depth + 1), normal(v, depth + 1)] for k, v in sorted(x.items(), key=repr)]
-    if isinstance(x, (list, tuple)):
-        return [normal(v, depth + 1) for v in x]
-    if x is None or isinstance(x, (bool, int, float, str)):
-        return x
-    return repr(x)[:200]
 
 
 def strip_meta(outcome):
@@ -364,7 +611,8 @@ def _check_open(specs, args, kwargs, recs, end, pickable, mode, stop_after, fact
     for r in recs:
         if 'foreign' in r:
             out.append((f'{mode}-foreign', f'{mode}: yielded something that is not a Result: {r["foreign"]}'))
-    byuid = {s['uid']: s for s in specs}
+    byuid = {s['uid']: s for s in reversed(specs)}
+    listed = _listed(specs)
     count = {}
     for i, r in enumerate(results):
         u = r['uid']
@@ -380,17 +628,43 @@ def _check_open(specs, args, kwargs, recs, end, pickable, mode, stop_after, fact
             continue
         out.extend(judge_record(s, r, args, kwargs, pickable, mode))
     complete = kind == 'exhausted' and stop_after is None
-    for s in specs:
-        c = count.pop(s['uid'], 0)
-        if c > 1:
-            out.append((f'{mode}-duplicate', f'{mode}: payload {s["uid"]} got {c} results'))
-        elif c == 0 and complete and not s.get('poison'):
-            out.append((f'{mode}-missing', f'{mode}: payload {s["uid"]} got no result although the iteration ended normally '
-                                           f'({len(results)} yielded for {len(specs)} payloads)'))
+    for u, m in listed.items():
+        c = count.pop(u, 0)
+        if c > m:
+            out.append((f'{mode}-duplicate', f'{mode}: payload {u}{_times(m)} got {c} results'))
+        elif c < m and complete and not byuid[u].get('poison'):
+            out.append((f'{mode}-missing', f'{mode}: payload {u}{_times(m)} got {c or "no"} result{"s" if c > 1 else ""} although '
+                                           f'the iteration ended normally ({len(results)} yielded for {len(specs)} payloads)'))
     for u in count:
         out.append((f'{mode}-unknown-payload', f'{mode}: a result for a payload id {u!r} that was not submitted'))
     facts[f'{mode}_results'] = len(results)
     return out
+
+
+def _who_raises(specs, excname):
+    """readable hint for an exception that ended the iteration: is it what some payload's function raises and the
+    loop was asked to capture?"""
+    us = [s['uid'] for s in specs if s.get('exc') and not s.get('poison') and expected_exc(s)[0] == excname]
+    if not us:
+        return ''
+    return (f' [{excname} is what the function raises for payload {us[0]}; its raises() is '
+            f'{tuple(c.__name__ for c in _declared(byuid_first(specs, us[0])))}: the loop was asked to capture it in the Result]')
+
+
+def byuid_first(specs, uid):
+    return next(s for s in specs if s['uid'] == uid)
+
+
+def _listed(specs):
+    """uid -> number of list positions holding that payload (1 unless the list names a payload several times)"""
+    listed = {}
+    for s in specs:
+        listed[s['uid']] = listed.get(s['uid'], 0) + 1
+    return listed
+
+
+def _times(m):
+    return '' if m == 1 else f' (listed {m} times: {m} results due)'
 
 
 def _uniq(out):
@@ -444,10 +718,12 @@ def check_history(specs, args, kwargs, par, par_end, seq, seq_end, pickable=Fals
         else:
             out.append((f'{kind}' + (':' + par_end.split(':', 1)[1] if kind == 'exception' else ''),
                         f'the parallel iteration ended with {par_end} after {sum(1 for r in par if r.get("uid") is not None)} '
-                        f'of {len(specs)} results ' + ' '.join(r['escaped'] for r in par if 'escaped' in r)[:200]))
+                        f'of {len(specs)} results ' + ' '.join(r['escaped'] for r in par if 'escaped' in r)[:200]
+                        + (_who_raises(specs, par_end.split(':', 1)[1]) if kind == 'exception' else '')))
     for mode, recs in (('par', par), ('seq', seq)):
         if mode == 'seq' and seq_end != 'exhausted':
-            out.append(('seq-' + seq_end.split(':')[0], f'the sequential mode ended with {seq_end}'))
+            out.append(('seq-' + seq_end.split(':')[0], f'the sequential mode ended with {seq_end}'
+                        + (_who_raises(specs, seq_end.split(':', 1)[1]) if seq_end.startswith('exception:') else '')))
         count = {}
         for r in recs:
             if 'escaped' in r:
@@ -457,15 +733,16 @@ def check_history(specs, args, kwargs, par, par_end, seq, seq_end, pickable=Fals
                 continue
             count[r['uid']] = count.get(r['uid'], 0) + 1
         stopped_early = (par_end if mode == 'par' else seq_end) != 'exhausted'
-        for s in specs:
-            c = count.pop(s['uid'], 0)
-            if c == 0 and not stopped_early:
-                out.append((f'{mode}-missing', f'{mode}: payload {s["uid"]} got no result ({len(recs)} yielded for {len(specs)} payloads)'))
-            elif c > 1:
-                out.append((f'{mode}-duplicate', f'{mode}: payload {s["uid"]} got {c} results'))
+        for u, m in _listed(specs).items():
+            c = count.pop(u, 0)
+            if c < m and not stopped_early:
+                out.append((f'{mode}-missing', f'{mode}: payload {u}{_times(m)} got {c or "no"} result{"s" if c > 1 else ""} '
+                                               f'({len(recs)} yielded for {len(specs)} payloads)'))
+            elif c > m:
+                out.append((f'{mode}-duplicate', f'{mode}: payload {u}{_times(m)} got {c} results'))
         for u in count:
             out.append((f'{mode}-unknown-payload', f'{mode}: a result for a payload id {u!r} that was not submitted'))
-        byuid = {s['uid']: s for s in specs}
+        byuid = {s['uid']: s for s in reversed(specs)}
         for r in recs:
             s = byuid.get(r.get('uid'))
             if s is None or 'escaped' in r or 'foreign' in r:
@@ -475,8 +752,10 @@ def check_history(specs, args, kwargs, par, par_end, seq, seq_end, pickable=Fals
         a = sorted(key_of(r) for r in par)
         b = sorted(key_of(r) for r in seq)
         if a != b:
-            only_p = [x for x in a if x not in b][:3]
-            only_s = [x for x in b if x not in a][:3]
+            from collections import Counter
+            ca, cb = Counter(a), Counter(b)
+            only_p = sorted((ca - cb).elements())[:3]
+            only_s = sorted((cb - ca).elements())[:3]
             out.append(('multiset', f'parallel and sequential results differ as multisets: only parallel {only_p}, only sequential {only_s}'))
     # one line per mechanism
     seen = set()
@@ -830,7 +1109,7 @@ _MISSING = object()
 
 def call_entry(entry, specs, args, kwargs, parallel, max_workers, pickable):
     """the public entry points of the real loop"""
-    payloads = [make_payload(s) for s in specs]
+    payloads = make_payloads(specs)
     kw = dict(kwargs)
     if pickable:
         kw['pickable'] = pick
